@@ -53,6 +53,10 @@ func (c01) Generate(r *engine.Rand, index int, tier string) *engine.Scenario {
 		genSweep(r, sc, index-progs)
 		return sc
 	}
+	if index%16 == 7 {
+		genBankedCode(r, sc)
+		return sc
+	}
 	sc.Class = "program"
 	genCPUProgram(r, sc, r.Range(1, 40))
 	return sc
@@ -61,3 +65,67 @@ func (c01) Generate(r *engine.Rand, index int, tier string) *engine.Scenario {
 var c01Focus = map[string]bool{"regs": true, "mem": true, "buswrite": true, "buswrite-missing": true, "flags-low": true, "stray": true, "if": true, "ie": true}
 
 func (c01) Execute(sc *engine.Scenario) *engine.Result { return executeCPU("C01", sc, c01Focus) }
+
+// genBankedCode: a program that switches the ROM bank it is executing from, again and again, so that
+// the same addresses are executed under alternating pages holding different instructions. low: an MBC1
+// cartridge of 1 MiB in mode 1, where BANK2 also selects the page seen at 0000-3FFF (pages 00 and 20);
+// high: the ordinary switchable window 4000-7FFF of MBC1/MBC3/MBC5 (pages 1 and 2). Every opcode is
+// what the bus returns at PC when it is fetched, whatever was there the last time round.
+func genBankedCode(r *engine.Rand, sc *engine.Scenario) {
+	sc.Class = "banked-code"
+	low := r.Bool()
+	pool := []uint8{0x00, 0x04, 0x0c, 0x05, 0x0d, 0x24, 0x2c, 0x25, 0x2d, 0x07, 0x17, 0x2f, 0x37, 0x3f, 0x80, 0xa8, 0xb1, 0x47, 0x4f}
+	k1, k2 := r.Range(1, 6), r.Range(1, 6)
+	build := func() []byte {
+		var c []byte
+		c = append(c, 0x31, 0x00, 0xdb)
+		if low {
+			c = append(c, 0x3e, 0x01, 0xea, 0x00, 0x60) // mode 1
+			c = append(c, 0x16, uint8(r.Range(3, 7)), 0x1e, 0x00)
+		} else {
+			c = append(c, 0x00, 0x00, 0x00, 0x00, 0x00)
+			c = append(c, 0x16, uint8(r.Range(3, 7)), 0x1e, 0x01)
+		}
+		loop := len(c)
+		for i := 0; i < k1; i++ {
+			c = append(c, engine.Pick(r, pool))
+		}
+		c = append(c, 0x7b) // LD A,E
+		if low {
+			c = append(c, 0xee, 0x01, 0x5f, 0xea, 0x00, 0x40) // XOR 1 ; LD E,A ; LD (4000),A
+		} else {
+			c = append(c, 0xee, 0x03, 0x5f, 0xea, 0x00, 0x20) // XOR 3 ; LD E,A ; LD (2000),A
+		}
+		for i := 0; i < k2; i++ {
+			c = append(c, engine.Pick(r, pool))
+		}
+		c = append(c, 0x15, 0x20)
+		c = append(c, uint8(loop-(len(c)+1)))
+		c = append(c, 0x18, 0xfe)
+		return c
+	}
+	a := build()
+	b := build()
+	// the two pages agree everywhere except in the filler instructions (same loop counter too)
+	b[9], b[11] = a[9], a[11]
+	g := &progGen{r: r, base: lsCodeROM}
+	kind, typ, romCode, page2 := "mbc1", uint8(0x03), uint8(5), 0x20
+	if !low {
+		g.base = 0x4150
+		page2 = 2
+		switch r.Intn(3) {
+		case 0:
+			kind, typ, romCode = "mbc1", 0x03, uint8(r.Range(2, 5))
+		case 1:
+			kind, typ, romCode = "mbc3", 0x13, uint8(r.Range(2, 5))
+		default:
+			kind, typ, romCode = "mbc5", 0x1b, uint8(r.Range(2, 5))
+		}
+	}
+	g.code = a
+	lsScenario(sc, r, g)
+	sc.Cart = engine.CartSpec{Kind: kind, Type: typ, RomCode: romCode, RamCode: 2, Program: engine.Hex(a), Entry: g.base, Program2: engine.Hex(b), Page2: page2, FillSeed: r.U64()}
+	sc.SetP("ime", 0)
+	sc.SetP("if", 0)
+	sc.Cycles = uint64(len(a))*3*8 + 128
+}
